@@ -551,4 +551,21 @@ theorem importsFormatted_perm {es₁ es₂ : List (Bytes × Bytes)} (hp : es₁.
       sortedBy_key_perm_eq Prod.fst bytesLe bytesLe_total bytesLe_trans bytesLe_antisymm
         (hp.filter _) (nodup_filter_keys _ es₁ hn)]
 
+theorem encStr_inj {a b : Bytes} (h : encStr a = encStr b) : a = b := by
+  unfold encStr at h
+  have hl : (be32 a.length ++ a).length = (be32 b.length ++ b).length := by rw [h]
+  simp only [List.length_append, be32_length] at hl
+  exact (List.append_inj' h (by omega)).2
+
+theorem nodup_encStr_keys (es : List (Bytes × Bytes)) (hn : (es.map Prod.fst).Nodup) :
+    (es.map fun e => encStr e.1).Nodup := by
+  have : (es.map fun e => encStr e.1) = (es.map Prod.fst).map encStr := by simp [List.map_map, Function.comp_def]
+  rw [this]
+  exact List.Pairwise.map encStr (fun _ _ hab h => hab (encStr_inj h)) hn
+
+theorem sortedBy_byEncodedKey_perm {es₁ es₂ : List (Bytes × Bytes)} (hp : es₁.Perm es₂)
+    (hn : (es₁.map Prod.fst).Nodup) : sortedBy byEncodedKey es₁ = sortedBy byEncodedKey es₂ :=
+  sortedBy_key_perm_eq (fun e : Bytes × Bytes => encStr e.1) bytesLe bytesLe_total bytesLe_trans bytesLe_antisymm hp
+    (nodup_encStr_keys es₁ hn)
+
 end Determinism
